@@ -51,7 +51,23 @@ var formats = map[string]gozxing.BarcodeFormat{
 	"code128": gozxing.BarcodeFormat_CODE_128, "code93": gozxing.BarcodeFormat_CODE_93,
 }
 
+// writerCache: as readerCache, for writer objects (an application keeps one
+// writer and encodes number after number with it).
+var writerCache map[string]gozxing.Writer
+
 func newWriter(sym string) gozxing.Writer {
+	if writerCache != nil {
+		if w, ok := writerCache[sym]; ok {
+			return w
+		}
+		w := freshWriter(sym)
+		writerCache[sym] = w
+		return w
+	}
+	return freshWriter(sym)
+}
+
+func freshWriter(sym string) gozxing.Writer {
 	switch sym {
 	case "ean13":
 		return oned.NewEAN13Writer()
@@ -67,6 +83,16 @@ func newWriter(sym string) gozxing.Writer {
 		return oned.NewCode93Writer()
 	}
 	return nil
+}
+
+// instanceKind: trace kinds that run on a kept reader or writer object and
+// therefore both make and may need history.
+func instanceKind(k string) bool {
+	switch k {
+	case "reader", "addon", "parity", "c128", "c93", "c39", "writer", "writer-wrongcheck", "c128writer", "c93writer":
+		return true
+	}
+	return false
 }
 
 // readerCache, when non-nil, makes newReader hand out one instance per
@@ -418,16 +444,17 @@ func isReaderErr(err error) bool {
 // execChain10 executes tr after its Prev history on fresh shared instances.
 func execChain10(tr *Trace10, probe func(string)) (string, *fail) {
 	if len(tr.Prev) == 0 {
-		old := readerCache
-		readerCache = nil
-		defer func() { readerCache = old }()
+		old, oldw := readerCache, writerCache
+		readerCache, writerCache = nil, nil
+		defer func() { readerCache, writerCache = old, oldw }()
 		return exec10(tr, probe)
 	}
-	old := readerCache
+	old, oldw := readerCache, writerCache
 	readerCache = map[string]gozxing.Reader{}
+	writerCache = map[string]gozxing.Writer{}
 	heldResults = map[gozxing.Reader]*heldResult{}
 	staleNote = ""
-	defer func() { readerCache = old }()
+	defer func() { readerCache, writerCache = old, oldw }()
 	for _, p := range tr.Prev {
 		q := *p
 		q.Prev = nil
@@ -1082,6 +1109,7 @@ func C10() *kit.Spec {
 			watchCtx = c
 			probe := func(p string) { c.Count(p, 1) }
 			readerCache = map[string]gozxing.Reader{}
+			writerCache = map[string]gozxing.Writer{}
 			heldResults = map[gozxing.Reader]*heldResult{}
 			staleNote = ""
 			var hist []*Trace10
@@ -1093,7 +1121,7 @@ func C10() *kit.Spec {
 			do := func(tr *Trace10, hash bool) bool {
 				if tr.HistOnly {
 					// keeps the hints it was given
-				} else if tr.Kind == "reader" || tr.Kind == "addon" || tr.Kind == "parity" || tr.Kind == "c128" || tr.Kind == "c93" || tr.Kind == "c39" {
+				} else if instanceKind(tr.Kind) {
 					tr.Hints = jobHints
 					if jobHints != 0 {
 						probe("probe.reader_given_optional_hints")
@@ -1109,11 +1137,11 @@ func C10() *kit.Spec {
 					report10(c, tr, f)
 					f = nil
 				}
-				if f != nil && (tr.Kind == "reader" || tr.Kind == "addon" || tr.Kind == "parity" || tr.Kind == "c128" || tr.Kind == "c93" || tr.Kind == "c39") {
+				if f != nil && (instanceKind(tr.Kind)) {
 					reportWithHistory(c, tr, f, hist)
 					return false
 				}
-				if tr.Kind == "reader" || tr.Kind == "addon" || tr.Kind == "parity" || tr.Kind == "c128" || tr.Kind == "c93" || tr.Kind == "c39" {
+				if instanceKind(tr.Kind) {
 					if len(hist) < 400 {
 						cp := *tr
 						hist = append(hist, &cp)
